@@ -63,6 +63,14 @@ def same(ctx, site, a, b, facts, xdim=None):
         x = al.points(2, a.D, salt=5)
         with ctx.guard(site + ".evaluate", facts):
             ok &= ctx.close(site + ".value", np.asarray(a.evaluate_ln(J(x))), np.asarray(b.evaluate_ln(J(x))), facts=facts, symptom="slice_mismatch")
+    if hasattr(a, "log_integral") and hasattr(b, "log_integral"):
+        # what the objects compute lazily (mass, mean, second moments) must agree as well
+        with ctx.guard(site + ".lazy_queries", facts):
+            qa, qb = copy.copy(a), copy.copy(b)
+            la, lb = np.asarray(qa.log_integral()), np.asarray(qb.log_integral())
+            if np.all(np.isfinite(lb)):
+                ok &= ctx.close(site + ".log_integral", la, lb, facts=facts, symptom="slice_mismatch")
+                ok &= ctx.close(site + ".mean", np.asarray(qa.integrate("x")) / np.exp(la)[:, None], np.asarray(qb.integrate("x")) / np.exp(lb)[:, None], tol=1e-7, facts=facts, symptom="slice_mismatch")
     return ok
 
 
@@ -370,7 +378,7 @@ QUERIES = [
     ("integrate_xx", lambda o: o.integrate("xx'")),
     ("integrate_quad_outer", lambda o: o.integrate("(Ax+a)(Bx+b)'", A_mat=J(al.int_matrix(2, o.D, salt=1) * 0.5), a_vec=J(al.int_vector(2, salt=1) * 0.5))),
     ("integrate_xbxx", lambda o: o.integrate("xb'xx'", b_vec=J(al.int_vector(o.D, salt=2) * 0.5))),
-    ("integrate_quartic", lambda o: o.integrate("(Ax+a)'(Bx+b)(Cx+c)'(Dx+d)", A_mat=J(al.int_matrix(2, o.D, salt=1) * 0.5), c_vec=J(al.int_vector(o.D, salt=1) * 0.5))),
+    ("integrate_quartic", lambda o: o.integrate("(Ax+a)'(Bx+b)(Cx+c)'(Dx+d)", A_mat=J(al.int_matrix(2, o.D, salt=1) * 0.5), B_mat=J(al.int_matrix(2, o.D, salt=2) * 0.5), c_vec=J(al.int_vector(o.D, salt=1) * 0.5))),
     ("log_integral", lambda o: o.log_integral()),
     ("entropy", lambda o: o.entropy()),
     ("evaluate", lambda o: o.evaluate(J(al.points(2, o.D, salt=3)))),
